@@ -220,7 +220,7 @@ class C19(Prop):
         "the file system and the operating system (one file in a fresh temporary directory per run, no concurrent access)",
     ]
     assumptions = [
-        "file content is ASCII (str.isdigit accepts other Unicode digits; undecodable octets raise UnicodeDecodeError): outside the model",
+        "file content is ASCII (str.isdigit accepts other Unicode digits; undecodable octets raise UnicodeDecodeError): outside the model; the theorems carry it as the explicit hypothesis Ascii / AsciiFile, preserved by every step (C19_ascii_step)",
         "POSIX text mode: os.linesep is '\\n' and the default encoding maps ASCII octets to the same characters",
         "the first line is shorter than CPython's integer string conversion limit (4300 digits) and width < 14000",
         "the file is not touched by anyone else between two operations; crash points inside a call are outside the statement",
